@@ -139,7 +139,8 @@ class DictDecoder:
                     raise ParserError(f"Unknown property {clazz.__qualname__}.{key}")
                 continue
 
-            if var.wrapper:
+            if var.wrapper and var.local_name != key:
+                # The value was found under the wrapper key
                 value = value[var.local_name]
 
             value = self.bind_value(meta, var, value)
